@@ -372,7 +372,7 @@ func c08Rewrite(c *Ctx) {
 		supplied := map[string]string{}
 		for _, name := range []string{"X-Forwarded-Proto", "X-Forwarded-Host", "X-Forwarded-Port", "X-Forwarded-Server", "X-Real-Ip", "X-Forwarded-For"} {
 			if r.IntN(6) == 0 {
-				v := map[string]string{"X-Forwarded-Proto": "https", "X-Forwarded-Host": "orig.example", "X-Forwarded-Port": "8443", "X-Forwarded-Server": "edge-1", "X-Real-Ip": "203.0.113.9", "X-Forwarded-For": "203.0.113.9, 198.51.100.2"}[name]
+				v := map[string]string{"X-Forwarded-Proto": pick(r, []string{"https", "https", "http", "ws", "wss"}), "X-Forwarded-Host": "orig.example", "X-Forwarded-Port": "8443", "X-Forwarded-Server": "edge-1", "X-Real-Ip": "203.0.113.9", "X-Forwarded-For": "203.0.113.9, 198.51.100.2"}[name]
 				hdrs = append(hdrs, hv{name, v})
 				supplied[name] = v
 			}
@@ -387,6 +387,15 @@ func c08Rewrite(c *Ctx) {
 				}
 			}
 			feature = "forwarding-in-connection"
+		}
+		// Connection tokens are case-insensitive
+		for k, tok := range connTokens {
+			switch r.IntN(4) {
+			case 0:
+				connTokens[k] = strings.ToLower(tok)
+			case 1:
+				connTokens[k] = strings.ToUpper(tok)
+			}
 		}
 		r.Shuffle(len(hdrs), func(a, b int) { hdrs[a], hdrs[b] = hdrs[b], hdrs[a] })
 		for name := range e2e { // expected values in wire order
@@ -522,7 +531,7 @@ func c08Rewrite(c *Ctx) {
 				// derived port follows the (possibly supplied) proto when the Host carries no port
 				if _, hp, err := net.SplitHostPort(hostHdr); err != nil || hp == "" {
 					if pr, ok := supplied["X-Forwarded-Proto"]; ok && !fwdInConn["X-Forwarded-Proto"] {
-						if pr == "https" {
+						if pr == "https" || pr == "wss" {
 							want = "443"
 						}
 					}
